@@ -26,3 +26,9 @@ def d19(cls, w):
     """C07: bare stream mapping whose tests all have null parameters is taken for a module mapping."""
     return (cls.startswith("C07:bare-streams:") and cls.endswith(":call-set-differs") and w.get("all_params_null") is True
             and w.get("n_observed") == 0)
+
+
+@predicate("D20")
+def d20(cls, w):
+    """C20: create_config treats an in-box subset whose values sum to exactly 0 as 'no data' and widens the box."""
+    return cls == "C20:create_config:spans-differ-from-in-box-statistics" and w.get("in_box_sum") == 0.0
